@@ -755,9 +755,9 @@ pub fn run(run: &Run, mode: Mode) {
 fn big_messages(run: &Run, mode: Mode, thorough: bool, impl_steps: &mut u64) {
     // single maximum-size messages; 16,777,216 bytes must be refused
     let sizes: Vec<(usize, u32)> = if thorough {
-        vec![(16_777_215, 128), (16_777_215, 65_536), (16_777_215, 0x7FFF_FFFF), (65_537, 1)]
+        vec![(16_777_215, 128), (16_777_215, 65_536), (16_777_215, 0x7FFF_FFFF), (65_537, 1), (9_000_000, 12_000_000), (8_388_609, 8_388_608), (16_777_215, 16_777_215)]
     } else {
-        vec![(16_777_215, 65_536), (70_000, 128)]
+        vec![(16_777_215, 65_536), (70_000, 128), (16_777_215, 0x7FFF_FFFF), (9_000_000, 12_000_000)]
     };
     for (len, cs) in sizes {
         let mut ser = ChunkSerializer::new();
